@@ -7,6 +7,7 @@ Format (line oriented; `#` at column 0 starts a comment line):
     @ret res                       # name the return value: `-> T` becomes `-> (res: T)`
     @attr #[verifier::exec_allows_no_decreases_clause]
     @mutself                       # rule R1
+    @cell NAME...                  # rule R29: a `let mut NAME` captured mutably by a closure becomes an untracked cell
     @sig
       requires
         - expr
@@ -114,6 +115,7 @@ class FnContract:
     ret: Optional[str] = None
     attrs: List[str] = field(default_factory=list)
     mutself: bool = False
+    cells: List[str] = field(default_factory=list)   # rule R29
     sig: ClauseBlock = field(default_factory=ClauseBlock)
     loops: Dict[int, LoopSpec] = field(default_factory=dict)
     closures: Dict[int, ClosureSpec] = field(default_factory=dict)
@@ -320,6 +322,8 @@ def parse_vc(path: str, text: str) -> List[FnContract]:
                 cur.attrs.append(rest)
             elif head == '@mutself':
                 cur.mutself = True
+            elif head == '@cell':
+                cur.cells += rest.split()
             elif head == '@replace':
                 a = _split_quoted(rest)
                 if len(a) < 3 or a[1] != '=>':
@@ -385,6 +389,7 @@ def _merge(a: FnContract, b: FnContract) -> FnContract:
     a.ret = a.ret or b.ret
     a.attrs = a.attrs + [x for x in b.attrs if x not in a.attrs]
     a.mutself = a.mutself or b.mutself
+    a.cells = a.cells + [x for x in b.cells if x not in a.cells]
     a.loops.update(b.loops)
     a.closures.update(b.closures)
     a.inserts += b.inserts
